@@ -155,7 +155,7 @@ NS_PREFIXES = [toks(x) for x in (
     "::boost::msm::backmp11::", "boost::msm::backmp11::", "::boost::msm::front::", "boost::msm::front::",
     "::boost::msm::", "boost::msm::", "msm::back::", "msm::back11::", "msm::front::", "back11::", "back::", "backmp11::",
     "::boost::fusion::", "boost::fusion::", "::boost::mpl::", "boost::mpl::", "mpl::", "mp11::",
-    "::boost::", "boost::", "::std::", "std::", "detail::", "placeholders::", "front::")]
+    "::boost::", "boost::", "::std::", "std::", "detail::", "placeholders::", "front::", "puml::")]
 
 def rule_ns(tk, F):
     out = []; i = 0
